@@ -98,6 +98,30 @@ CLAIMED.update({
    note="Tokenizer stubbed for the constant lemma; replay on a real three-module file.", design_ref="§4 C06, §9"),
 })
 
+CLAIMED.update({
+ "C16": dict(engine="E1", technique="bounded symbolic execution of the real writer (AST interpreter over a symbolic heap, output text kept as ropes) run twice on a hierarchy-concrete fixture with symbolic connections and options + z3: frame of the whole netlist and structural equality of the two write sequences",
+   text="Fixture level, bounded: each of the three real writers (EBLIFComposer.run, verilog Composer.run, ComposeEdif.run; objects built by the real __init__) is executed twice on a three-definition, two-library netlist whose connections and writer options are symbolic (EBLIF.type taggings enumerated as cubes). z3 shows that after each write every field and data entry of every netlist object is unchanged -- for the first EDIF write up to the documented side effects only (dependency reordering of libraries/cells, recorded identifiers) --, that the second run issues the same writes with equal text, and that nothing raises. Other hierarchy shapes, the definition_list/reverse options and the bytes reaching the file system (open/close/flush, 'complete and closed') are NOT decided.",
+   note="File objects replaced by a write recorder; text compared as ropes (equal shape and leaves is sufficient for equal text). Counterexamples are replayed with the real composer on a real netlist and temp files.", design_ref="§9.6, §9.8"),
+})
+
+# claims extended in the second seeding round (DESIGN 9.7)
+EXTRA_TEXT = {
+ "C03": "Also decided: the writer's portRef emission (_output_port_ref_/_output_inner_pin_) names the position of exactly the pin that is on the net, for ports of 1 and 3 pins in every connection pattern.",
+ "C04": "Also decided (CrossHair): (* *) attribute lists of up to three entries survive real reader -> real writer -> real reader.",
+ "C05": "Also decided: parse_design binds the top instance to the cell with the cellRef identifier in the library with the libraryRef identifier, independent of display names.",
+ "C06": "Also decided: a two-piece concatenation {P1, P2} yields P1's bits MSB-first followed by P2's bits MSB-first.",
+ "C08": "Also decided: the WHOLE uniquify() -- real driver, _is_unique, _make_instance_unique, Definition.clone -- on containment-concrete netlists with symbolic instance->definition references (sharing below the top, with the outside, leaves): uniqueness of reachable hierarchical instances, unchanged elaborated tree and leaf types, untouched originals/outside, fresh names in the same library, well-formedness, idempotence, no exception.",
+ "C09": "Also decided: the same kernel for a two-pin port whose bits are on distinct nets (each bit merged whatever happened for the one before).",
+ "C11": "Also decided: the hierarchical-wire and hierarchical-cable name maps contain exactly one entry per occurrence below the top (wire-only cells included), named by path, cable and bus index, on three fixtures with symbolic naming flags.",
+ "C12": "Quick tier fixtures: shared-sub and wire-only (a cell with nets but no children one level down).",
+ "C13": "Also decided: brackets in wildcard patterns are literal; the name maps behind get_hwires/get_hcables (see C11).",
+ "C18": "Also decided: connect_pin_to_wire joins a pin to the named net of the model being read, across two consecutive models (parser built by its real __init__).",
+ "C20": "Also decided on a shape with two instances of the two-pin cell (a net moved to the same pin of the other instance is rejected); the comparer is built by its real __init__.",
+ "C14": "Instance.reference is additionally decided on shape-concrete universes with two ports per definition (equal, growing and shrinking second port).",
+}
+for _p, _t in EXTRA_TEXT.items():
+    CLAIMED[_p]["text"] += " " + _t
+
 NA_REASON = "check not built yet in this round (see DESIGN.md §7 build order); no claim is made"
 
 def main():
@@ -138,7 +162,7 @@ def main():
     print("claimed:", [c["property_id"] for c in checks], "NA:", len(na))
 
 NA = {
- "C16": "solver-based checking does not reach this property: the three composers are text-building loops whose trip count and output grow with the netlist; under E1 the emitted strings become finite-domain atoms whose domains multiply at every symbolic concatenation (a run of EBLIFComposer.run on a 3-definition fixture with ONE symbolic EBLIF.type tag did not get past compose_subcircuits in 20 min), and under CrossHair a compose costs seconds per path (measured in round 0). 'Output file complete and closed' depends on CPython reference counting, which neither engine models. No weaker technique is substituted (DESIGN.md section 9.6).",
+ "C16_old": "solver-based checking does not reach this property: the three composers are text-building loops whose trip count and output grow with the netlist; under E1 the emitted strings become finite-domain atoms whose domains multiply at every symbolic concatenation (a run of EBLIFComposer.run on a 3-definition fixture with ONE symbolic EBLIF.type tag did not get past compose_subcircuits in 20 min), and under CrossHair a compose costs seconds per path (measured in round 0). 'Output file complete and closed' depends on CPython reference counting, which neither engine models. No weaker technique is substituted (DESIGN.md section 9.6).",
 }
 if __name__ == "__main__":
     main()
